@@ -99,6 +99,9 @@ theorem join_split {a b : Endpoint} {f : Flow} (h : flowFromEndpoints a b = .ok 
     cases a; cases b
     simp_all [Flow.endpoints, Flow.srcEp, Flow.dstEp]
 
+example : ∃ a b f, newEndpoint 1 [10, 0, 0, 1] = .ok a ∧ newEndpoint 1 [10, 0, 0, 2] = .ok b ∧
+    flowFromEndpoints a b = .ok f ∧ f.srcBytes = [10, 0, 0, 1] := ⟨_, _, _, rfl, rfl, rfl, by decide⟩
+
 /-- FlowFromEndpoints over NewEndpoint is NewFlow. -/
 theorem flowFromEndpoints_newEndpoint {t : Int} {s d : List UInt8} {a b : Endpoint}
     (ha : newEndpoint t s = .ok a) (hb : newEndpoint t d = .ok b) :
@@ -143,6 +146,15 @@ theorem zero_wf : Endpoint.zero.WF ∧ Flow.zero.WF := by
 example : (Flow.mk 4 2 2 ([0, 80] ++ List.replicate 14 0) ([195, 80] ++ List.replicate 14 0)).WF := by
   decide
 
+/-- Non-vacuity of `Reach`: the reverse of a flow joined from the source of one NewFlow and a
+    NewEndpoint is reachable (and so are its endpoints). -/
+example : ∃ f : Flow, Reach (.fl f) ∧ Reach (.ep f.srcEp) ∧ f.srcBytes = [9, 9, 9] ∧ f.dstBytes = [0, 80] := by
+  have h1 : Reach (.fl ⟨4, 2, 2, copyInto zeroArr [0, 80], copyInto zeroArr [1, 187]⟩) :=
+    Reach.newFl (t := 4) (s := [0, 80]) (d := [1, 187]) rfl
+  have h2 : Reach (.ep ⟨4, 3, copyInto zeroArr [9, 9, 9]⟩) := Reach.newEp (t := 4) (raw := [9, 9, 9]) rfl
+  have h3 := Reach.fromEps (Reach.src h1) h2 (f := ⟨4, 2, 3, copyInto zeroArr [0, 80], copyInto zeroArr [9, 9, 9]⟩) rfl
+  exact ⟨_, Reach.rev h3, Reach.src (Reach.rev h3), by decide, by decide⟩
+
 /-- Every endpoint and flow obtainable through the exported API (from the zero values, through
     any number of NewEndpoint / NewFlow / FlowFromEndpoints / Src / Dst / Reverse steps) is
     well formed. -/
@@ -174,6 +186,9 @@ theorem endpoint_eq_iff {a b : Endpoint} (ha : a.WF) (hb : b.WF) :
 theorem flow_eq_iff {f g : Flow} (hf : f.WF) (hg : g.WF) :
     f = g ↔ (f.typ = g.typ ∧ f.srcBytes = g.srcBytes ∧ f.dstBytes = g.dstBytes) :=
   ⟨fun h => by subst h; exact ⟨rfl, rfl, rfl⟩, fun h => Flow.ext_bytes hf hg h.1 h.2.1 h.2.2⟩
+
+example : ∃ a b : Endpoint, a.WF ∧ b.WF ∧ a.typ = b.typ ∧ a.bytes ≠ b.bytes ∧ a ≠ b :=
+  ⟨⟨3, 2, 1 :: 2 :: List.replicate 14 0⟩, ⟨3, 3, 1 :: 2 :: 0 :: List.replicate 13 0⟩, by decide⟩
 
 /-- The same for everything reachable through the API (no WF hypothesis left). -/
 theorem reach_endpoint_eq_iff {a b : Endpoint} (ha : Reach (.ep a)) (hb : Reach (.ep b)) :
@@ -215,6 +230,9 @@ theorem newFlow_swap {t : Int} {s d : List UInt8} {f : Flow} (h : newFlow t s d 
   · rename_i hl
     cases h
     rw [if_neg (by omega)]; rfl
+
+example : ∃ f, newFlow 3 [1, 2, 3, 4, 5, 6] [255, 255, 255, 255, 255, 255] = .ok f ∧ f.reverse ≠ f :=
+  ⟨_, rfl, by decide⟩
 
 /-- A flow equals its own reverse exactly when its two endpoints are equal. -/
 theorem reverse_eq_self_iff (f : Flow) : f.reverse = f ↔ f.srcEp = f.dstEp := by
@@ -269,6 +287,9 @@ theorem lt_trichotomy {a b : Endpoint} (ha : a.WF) (hb : b.WF) :
     · exact .inr (.inl (Endpoint.ext_bytes ha hb h hl))
     · exact .inr (.inr (.inr ⟨h.symm, hl⟩))
   · exact .inr (.inr (.inl h))
+
+example : ∃ a b : Endpoint, a.WF ∧ b.WF ∧ a ≠ b ∧ a.lessThan b = true ∧ b.lessThan a = false :=
+  ⟨⟨3, 2, 1 :: 2 :: List.replicate 14 0⟩, ⟨3, 3, 1 :: 2 :: 0 :: List.replicate 13 0⟩, by decide⟩
 
 /-- Consistency with equality: exactly one of `a < b`, `a == b`, `b < a` holds. -/
 theorem lt_exactly_one {a b : Endpoint} (ha : a.WF) (hb : b.WF) :
